@@ -197,7 +197,72 @@ pub fn c16_errors_body<S: Src>(s: &mut S) {
     }
 }
 
+/// @harness props=C16:Q,C20:T n=2 err=TagErr timeout=900 input=token_tree_of_depth_3:_G(_G(leaf?)_leaf?_)
+/// @shape ( t0.nested_in(group) then leaf? ).nested_in(group)        [nested_in inside nested_in]   vs direct oracle
+/// @symbolic t0: u8; innermost leaf value and presence; middle level: 0..=2 tokens
+/// @aims two levels of input swapping: each level must be consumed completely, each advances its parent by one token
+pub fn c16_depth3_body<S: Src>(s: &mut S) {
+    let t0 = s.u8();
+    let (v, w) = (s.u8(), s.u8());
+    let leaf_buf = [Tok::L(v)];
+    let n0 = s.upto(1) as usize;
+    let inner = &leaf_buf[..n0];
+    let mid_buf = [Tok::G(inner), Tok::L(w)];
+    let n1 = s.upto(2) as usize;
+    let mid = &mid_buf[..n1];
+    let outer_buf = [Tok::G(mid)];
+    let outer = &outer_buf[..];
+    let p = l(t0).nested_in(group()).then(any_l().or_not()).nested_in(group());
+    let r = p.parse(outer);
+    contract(&r);
+    let want = n0 == 1 && v == t0 && n1 >= 1;
+    check!("C16:acceptance", r.has_output() == want);
+    if let Some((a, b)) = r.output() {
+        check!("C16:inner-sees-exactly-the-inner-tokens", *a == v && *b == if n1 == 2 { Some(w) } else { None });
+    }
+    cover!("cover:accept-with-follower", r.has_output() && n1 == 2);
+    cover!("cover:reject-empty-innermost", !r.has_output() && n0 == 0 && n1 >= 1);
+}
+
+/// @harness props=C16:Q,C20:T n=2 err=TagErr timeout=900 input=token_tree_of_depth_4:_G(_G(_G(leaf?)_leaf?_)_leaf?_)
+/// @shape ( ( V.nested_in(group) then leaf? ).nested_in(group) then leaf? ).nested_in(group)      V = t0.validate(emit)      vs direct oracle
+/// @symbolic t0: u8; leaf values; 0..=1 / 0..=2 / 0..=2 tokens per level
+/// @aims three levels of input swapping (tree depth 4); an emission made at the innermost level surfaces in the outermost result
+pub fn c16_depth4_body<S: Src>(s: &mut S) {
+    let t0 = s.u8();
+    let (v, w, z) = (s.u8(), s.u8(), s.u8());
+    let leaf_buf = [Tok::L(v)];
+    let n0 = s.upto(1) as usize;
+    let l3 = &leaf_buf[..n0];
+    let b2 = [Tok::G(l3), Tok::L(w)];
+    let n1 = s.upto(2) as usize;
+    let l2 = &b2[..n1];
+    let b1 = [Tok::G(l2), Tok::L(z)];
+    let n2 = s.upto(2) as usize;
+    let l1 = &b1[..n2];
+    let outer_buf = [Tok::G(l1)];
+    let outer = &outer_buf[..];
+    let vv = l(t0).validate(|v, e, em| {
+        em.emit(TagErr::emitted(1, e.span()));
+        v
+    });
+    let p = vv.nested_in(group()).then(any_l().or_not()).nested_in(group()).then(any_l().or_not()).nested_in(group());
+    let r = p.parse(outer);
+    contract(&r);
+    let want = n0 == 1 && v == t0 && n1 >= 1 && n2 >= 1;
+    check!("C16:acceptance", r.has_output() == want);
+    let (out, errs) = r.into_output_errors();
+    if let Some(((a, b), c)) = out {
+        check!("C16:inner-sees-exactly-the-inner-tokens", a == v && b == if n1 == 2 { Some(w) } else { None } && c == if n2 == 2 { Some(z) } else { None });
+        check!("C16:inner-emission-surfaces", errs.len() == 1 && errs[0].id() == 1);
+    }
+    cover!("cover:accept-full", out.is_some() && n1 == 2 && n2 == 2);
+    cover!("cover:reject", out.is_none());
+}
+
 crate::harnesses! {
+    c16_depth4 [6] = c16_depth4_body;
+    c16_depth3 [6] = c16_depth3_body;
     c16_errors [6] = c16_errors_body;
     c16_nested [6] = c16_nested_body;
     c16_backtrack [6] = c16_backtrack_body;
